@@ -83,6 +83,7 @@ deriving DecidableEq, Repr
 /-- state of the handler closure of one dispatched request -/
 inductive HSt
   | queued              -- handleConn has counted it; goroutine spawned / job submitted, body not started
+  | handed              -- pool only: a worker has received the job and has not yet called it
   | running             -- inside `protocol.Invoke`
   | finished            -- Invoke returned, `conn.Write(rsp)` not yet executed
   | wrote (ok : Bool)   -- `conn.Write(rsp)` executed; ok = the connection was still open
@@ -95,7 +96,7 @@ def HSt.isDone : HSt → Bool
 
 /-- occupies a worker: from the start of the job body to its end -/
 def HSt.busy : HSt → Bool
-  | .running | .finished | .wrote _ => true
+  | .handed | .running | .finished | .wrote _ => true
   | _ => false
 
 /-- no failed write so far -/
@@ -220,6 +221,7 @@ inductive Action
   | dispatch (c : Cid)
   | enqueue (c : Cid)
   | pTake
+  | pGive
   | start (c : Cid) (i : Nat)
   | fin (c : Cid) (i : Nat)
   | write (c : Cid) (i : Nat)
@@ -308,6 +310,10 @@ def cSetSt (i : Nat) (frm : HSt) (to : HSt) (k : Conn) : Option Conn :=
   | none => none
 
 def cStart (i : Nat) (k : Conn) : Option Conn := cSetSt i .queued .running k
+/-- pool: `worker := <-p.WorkerQueue; worker.JobChannel <- job` -/
+def cHand (i : Nat) (k : Conn) : Option Conn := cSetSt i .queued .handed k
+/-- pool: the worker calls `job()` -/
+def cStartP (i : Nat) (k : Conn) : Option Conn := cSetSt i .handed .running k
 def cFin (i : Nat) (k : Conn) : Option Conn := cSetSt i .running .finished k
 /-- `conn.Write(rsp)`: an error (only logged) when the server has closed the connection -/
 def cWrite (i : Nat) (k : Conn) : Option Conn := cSetSt i .finished (.wrote (!k.srvClosed)) k
@@ -417,14 +423,13 @@ def step (cfg : Cfg) (s : State) : Action → Option State
     | none, j :: rest =>
       if s.pst = .live ∨ s.pst = .stopReq then some { s with held := some j, jobQ := rest } else none
     | _, _ => none
-  | .start c i =>
-    match cfg.pool with
-    | none => updConn s c (cStart i)
-    | some (n, _) =>
-      -- `worker := <-p.WorkerQueue; worker.JobChannel <- job`, then the worker calls `job()`
-      if s.held = some (c, i) ∧ busy s < n then
-        (updConn s c (cStart i)).map fun s' => { s' with held := none }
-      else none
+  | .pGive =>
+    match cfg.pool, s.held with
+    | some (n, _), some (c, i) =>
+      -- `worker := <-p.WorkerQueue` (an idle worker exists) and `worker.JobChannel <- job`
+      if busy s < n then (updConn s c (cHand i)).map fun s' => { s' with held := none } else none
+    | _, _ => none
+  | .start c i => if poolOn cfg then updConn s c (cStartP i) else updConn s c (cStart i)
   | .fin c i => updConn s c (cFin i)
   | .write c i => updConn s c (cWrite i)
   | .dec c i => updConn s c (cDec i)
